@@ -160,6 +160,14 @@ def run(res):
                 if seg == "c" and len(out) % 2 == 1:
                     out += b"\0"
                 cases.append(([".cseg" if seg == "c" else ".eseg", ".db " + sep.join(ops)], ("OK", out.hex() if seg == "c" else "", out.hex() if seg == "e" else "")))
+    # macro bodies that begin or end with .org / a segment directive: the expansion lands where the pasted body would
+    from . import c09
+    mp = c09.segment_first_pairs()
+    mobs = P.correspond(res, vh, exe, [a for a, _ in mp] + [b for _, b in mp], "macros whose body begins or ends with a segment directive or .org")
+    for a, b in mp:
+        x, y = progrun.parse_obs(mobs[a][0]), progrun.parse_obs(mobs[b][0])
+        if y["kind"] == "OK" and (x["kind"], x.get("code"), x.get("eeprom"), x.get("fill")) != ("OK", y["code"], y["eeprom"], y["fill"]):
+            P.fail(res, "builder::build_str", a, "the images of the pasted body: " + mobs[b][0][:100], mobs[a][0][:100], "macro-segment-data")
     texts = ["\n".join(l) + "\n" for l, _ in cases]
     obs = P.correspond(res, vh, exe, texts, "data-directive programs")
     nerr = 0
